@@ -103,7 +103,16 @@ def c19_check_max_depth():
             p.assume(D >= 0)
             g2 = dict(g, MAX_DEPTH=MAXD, _CURRENT_DEPTH=D)
             ctx = Obj("context", get_start_method=lambda it: "fork" if it.p.branch(FORK) else "loky")
-            it = Interp(p, g2)
+
+            def fold(name):
+                def f(it2, *xs):
+                    acc = xs[0]
+                    for x in xs[1:]:
+                        c = (x < acc) if name == "min" else (x > acc)
+                        acc = z3.If(c, x, acc) if esym.is_sym(c) else (x if c else acc)
+                    return acc
+                return f
+            it = Interp(p, g2, {"min": fold("min"), "max": fold("max")})
             try:
                 it.call_function(funcs["_check_max_depth"], [ctx])
                 raised = False
